@@ -24,6 +24,11 @@ THEOREMS = [
     "TornadoModel.C02.cWrite_keeps",
     "TornadoModel.C02.cFinish_closes",
     "TornadoModel.C02.readLine_line",
+    "TornadoModel.C02.response_wellframed_exact",
+    "TornadoModel.C02.response_wellframed_partial",
+    "TornadoModel.C02.response_wellframed_refuted",
+    "TornadoModel.C02.nobody_wire_is_head",
+    "TornadoModel.C02.body_is_writes",
 ]
 TRUSTED = [
     "the reading of 'a strict HTTP/1.1 client' into Spec.clientParse (C02/Spec.lean, ~150 lines)",
@@ -43,9 +48,19 @@ RULE = ("handler programs of <= 8 ops (status/set/add/clear header, write, flush
 EXHAUSTIVE = {"quick": False, "thorough": False}
 CLAUSES = {
     "exactly one response that a strict client delimits unambiguously, with the final status/headers and the chunks written":
-        "tie only: response_wellframed_goal (stated, not proved) — decided per case by Spec.clientParse on the real wire bytes; "
-        "proved pieces: chunk_wire_roundtrip (every chunk list), readLine_line, content_length_text_roundtrip, identity_coding",
-    "HEAD / 204 / 304 carry no body": "tie only (oracle: body empty and no trailing bytes); model: expected=0 guard after the fix for D25",
+        "response_wellframed_exact (every request shape, every program under the decidable side conditions reqOK/opOK: "
+        "Spec.clientParse on the model's wire bytes = exactly one response, nothing left over, status/reason/header lines "
+        "= what write_headers serialised, body = concatenation of the chunks accepted by the connection, delimited by "
+        "no-body/chunked/Content-Length/close; otherwise truncated AND closed, only when the handler's own Content-Length "
+        "exceeds what it wrote) + response_wellframed_partial (the originally stated goal under the side conditions) + "
+        "response_wellframed_refuted (without a side condition on header values the statement is false: "
+        "set_header('Content-Length','a') leaves an open connection with nothing written; out of the generator domain, "
+        "see ASSUMPTIONS) + body_is_writes (exception-free programs on non-HEAD requests without an If-None-Match hit: "
+        "the client's status is the one in force at the first flush/finish and its body is the concatenation of the "
+        "program's writes up to the first finish, for every interleaving of writes/flushes and every delimitation mode); "
+        "built on chunk_wire_roundtrip, readLine_line, content_length_text_roundtrip, identity_coding",
+    "HEAD / 204 / 304 carry no body": "nobody_wire_is_head (wire = exactly the serialised head for HEAD/1xx/204/304, all programs) "
+        "+ response_wellframed_exact (client body empty, no trailing bytes)",
     "a Content-Length equals the length of the body a GET would carry": "cl_equals_get_body (finish()'s automatic value) + content_length_text_roundtrip",
     "when neither Content-Length nor chunked coding delimits the body the connection is closed after it":
         "undelimited_closes (decision logic, all request shapes/statuses/header maps) + undelimited_closes_at_finish + cWrite_keeps + cFinish_closes",
